@@ -766,6 +766,14 @@ func (g *Gen) resolveLocal(name string, b *ssa.BasicBlock, limit int, e *Env) (T
 			if bb == b && (limit < 0 || i >= limit) {
 				break
 			}
+			// a register variable that is assigned on some paths only reaches a join as a phi named after it: the phi
+			// of a dominating block is a later value of the variable than any DebugRef of the blocks before it
+			if phi, isPhi := in.(*ssa.Phi); isPhi && phi.Comment == name {
+				if _, isT := phi.Type().(*types.Tuple); !isT && (best == nil || dominatesOrSame(blockOf(best), bb)) {
+					best, bestAddr = phi, false
+				}
+				continue
+			}
 			dr, ok := in.(*ssa.DebugRef)
 			if !ok {
 				continue
